@@ -28,6 +28,13 @@ pub fn classify(clause: &str, detail: &str, _trace: &[String]) -> Option<&'stati
                 None
             }
         }
+        "C05/handed-out-path-no-longer-valid" => {
+            if detail.contains("[caller waited across the expiry") {
+                Some("C05/handed-out-path-no-longer-valid/caller-waited-across-expiry")
+            } else {
+                None
+            }
+        }
         "C06/left-without-path" => {
             if detail.contains("[valid paths of the latest lookup were not kept]") {
                 Some("C06/left-without-path/valid-paths-of-latest-lookup-not-kept")
